@@ -193,7 +193,7 @@ func (g *G) probeExpr(sc scopeInfo, inExpr bool) string {
 // strExpr returns a string-valued expression valid in sc.
 func (g *G) strExpr(sc scopeInfo, depth int) string {
 	var alts []string
-	alts = append(alts, `"lit"`, "s", `item.Name`, `names[0]`)
+	alts = append(alts, `"lit"`, "s", `item.Name`, `names[0]`, `item.ExtraNote`, `root.MetaName`)
 	if !sc.noLocals {
 		for _, v := range sc.vars {
 			alts = append(alts, v)
@@ -201,9 +201,9 @@ func (g *G) strExpr(sc scopeInfo, depth int) string {
 	}
 	switch sc.ctx {
 	case KRoot:
-		alts = append(alts, ".Title", ".BaseName", ".Hello()", ".Items[0].Name", "root.First().Name", `.Names[0]`)
+		alts = append(alts, ".Title", ".BaseName", ".Hello()", ".Items[0].Name", "root.First().Name", `.Names[0]`, ".MetaName")
 	case KItem:
-		alts = append(alts, ".Name", ".Title()", `.M["mk"]`, `.Tags[0]`)
+		alts = append(alts, ".Name", ".Title()", `.M["mk"]`, `.Tags[0]`, ".ExtraNote")
 	case KStr:
 		alts = append(alts, ".")
 	}
